@@ -74,6 +74,17 @@ NOTES.update({
  "w8-C17-m3": "missed at first: RGB ints all carried 0xFF in the top byte; top bytes 0x00, random, mixed and sign-extended added (they carry no colour)",
  "w8-C18-m1": "first run: exit 2 - the race was reported with both stacks entirely in the root package, which the report parser did not count as library frames (only sub-packages matched the prefix); fixed. The `parentcrop` operation (tasks derive their own crops / rotations from bitmaps built before the tasks start) was added for this change",
 })
+NOTES.update({
+ "w9-C05-m1": "missed at first, and the miss was the check's own laxness: an undamaged symbol the decoder rejects with a non-checksum error was skipped as 'outside the error-control layer'. 'Up to floor(ec/2)' includes none, so control failures (error, panic, other text) of library-made and reference-made symbols are violations now (0 such skips in 81 000 controls of an earlier thorough run)",
+ "w9-C10-m1": "missed at first: hints were constant per job; history-only calls with ASSUME_CODE_39_CHECK_DIGIT (false / true) are interleaved on the re-used Code 39 readers; their own outcome is not judged (an honest reader may obey the hint for that call)",
+ "w9-C10-m2": "missed at first: parity patterns were only used to parse writer output; `parity` jobs draw EAN-13 and UPC-E symbols with all 64 left-half parity patterns (patterns that encode no digit must not be read as any number; patterns that do are accepted iff the number verifies)",
+ "w9-C10-m3": "missed at first: the text of a Result was read once; the last Result of every reader instance is now held with a private copy of its text and compared after every later call on that instance (`reader/result-changes-later`)",
+ "w9-C11-m1": "missed at first: no mirror images in the histories; a third of the prime symbols on the reader path are shown as mirror images (history only: reading them is offered, not demanded)",
+ "w9-C16-m1": "NOT decided: needs stray bits beyond the size left by SetBulk (stated assumption: SetBulk is given zero there), like w5-C16-m2",
+ "w9-C17-m1": "caught at first only because the check demanded that non-Go-image sources refuse to rotate - which a correct extension would have tripped as well; the rotate step now accepts rotation from any source kind and compares it with the model's quarter turn (still caught: rotate/state:pixels)",
+ "w9-C17-m2": "missed at first: negatives were only taken with Invert(); NewInvertedLuminanceSource and LuminanceSourceInvert added",
+ "w9-C18-m3": "missed at first: ITF contents were 6..14 digits, never longer than the largest default length; lengths up to 42 added",
+})
 rows=[]
 for d in sorted(glob.glob('/verif/seeded/*/')):
     name=os.path.basename(d.rstrip('/'))
